@@ -4,6 +4,7 @@ KEYS = [
     "doctrans.defaults_utils:set_default_doc",
     "doctrans.defaults_utils:extract_default",
     "doctrans.emitter_utils:interpolate_defaults",
+    "doctrans.docstring_parsers:_infer_default",
 ]
 
 
